@@ -5,143 +5,143 @@ package main
 // pass must not be read as. Both go into the evidence file and MANIFEST.
 func init() {
 	property(&Property{
-		ID:    "C01",
-		Rules: []string{"STOP-SET", "LITERAL-COMPARE", "OFFSET-BASE", "KEY-AGREE", "PATTERN-VERB", "VERB-KEY", "LEAF-EXHAUSTED", "VARS-ONLY"},
-		Decides: "Decides the comparisons and tables every sound matcher must contain: literal edges are followed by the same key they were created with; a variable pattern's literal arm rejects on kind or text mismatch; '*' stops at '/' and ':' and '**' at ':' only; each HttpRule pattern case maps to the HTTP method of the same name and the leaf lookup is keyed by the request's verb; a method is returned only when nothing but the end marker is left; captured text is bound only to the fields the template names; capture lengths use the right base.",
-		NotDecided: "that a matching path is matched only by covering templates in general (lexer character classes, ':' handling, capture text equality, numeric conversion results, trailing-slash normalisation) - i.e. the behavioural statement itself.",
+		ID:          "C01",
+		Rules:       []string{"STOP-SET", "LITERAL-COMPARE", "OFFSET-BASE", "KEY-AGREE", "PATTERN-VERB", "VERB-KEY", "LEAF-EXHAUSTED", "VARS-ONLY", "PATH-NORMALISE", "PATH-SOURCE", "SEP-CHECK"},
+		Decides:     "Decides the comparisons and tables every sound matcher must contain: literal edges are followed by the same key they were created with; a variable pattern's literal arm rejects on kind or text mismatch; '*' stops at '/' and ':' and '**' at ':' only; each HttpRule pattern case maps to the HTTP method of the same name and the leaf lookup is keyed by the request's verb; a method is returned only when nothing but the end marker is left; captured text is bound only to the fields the template names; capture lengths use the right base.",
+		NotDecided:  "that a matching path is matched only by covering templates in general (lexer character classes, ':' handling, capture text equality, numeric conversion results, trailing-slash normalisation) - i.e. the behavioural statement itself.",
 		Assumptions: commonAssumptions,
 	})
 	property(&Property{
-		ID:    "C02",
-		Rules: []string{"LITERAL-FIRST", "BACKTRACK", "STOP-SET", "SORTED-VARS", "NO-MAP-ORDER", "OFFSET-BASE"},
-		Decides: "Decides the structural guarantees of the matcher's shape for every rule set and path: the literal edge is tried before any variable and wins if it succeeds; a failed sub-search never aborts the search (only a conversion failure does); variables are kept sorted by a strict order on a key that depends on the pattern only; nothing on the matching path ranges over a map; capture lengths are computed against the right base.",
-		NotDecided: "that every instantiation of every template matches (value-level: lexer character classes, token cap, '**' stopping at the first ':'); order independence of registration (duplicate detection, delRule).",
+		ID:          "C02",
+		Rules:       []string{"LITERAL-FIRST", "BACKTRACK", "STOP-SET", "SORTED-VARS", "NO-MAP-ORDER", "OFFSET-BASE"},
+		Decides:     "Decides the structural guarantees of the matcher's shape for every rule set and path: the literal edge is tried before any variable and wins if it succeeds; a failed sub-search never aborts the search (only a conversion failure does); variables are kept sorted by a strict order on a key that depends on the pattern only; nothing on the matching path ranges over a map; capture lengths are computed against the right base.",
+		NotDecided:  "that every instantiation of every template matches (value-level: lexer character classes, token cap, '**' stopping at the first ':'); order independence of registration (duplicate detection, delRule).",
 		Assumptions: commonAssumptions,
 	})
 	property(&Property{
-		ID:    "C03",
-		Rules: []string{"KIND-EXHAUSTIVE", "KIND-VALUE-AGREE", "WKT-TABLE", "BYTES-ALPHABETS", "NAME-RESOLUTION", "FIELDPATH-SINGULAR", "DECODE-THEN-PARAMS", "DESC-ROLE", "DECOMP-AGREE"},
-		Decides: "Decides that the per-kind conversion table is complete and type-correct against protoreflect's Kind/Value contract, that well-known types are listed and unmarshalled into their own type, that the bytes arm reaches all four base64 variants, that names resolve by JSON name then proto name, that field paths only walk singular message fields, that body/query/path resolution uses the request descriptor, that decompression and codec selection follow the request headers, and that parameters are applied after the body.",
-		NotDecided: "that converted values equal the proto3 JSON reading (null, NaN, whitespace, base64 details), the round-trip law itself, codec behaviour.",
+		ID:          "C03",
+		Rules:       []string{"KIND-EXHAUSTIVE", "KIND-VALUE-AGREE", "WKT-TABLE", "BYTES-ALPHABETS", "NAME-RESOLUTION", "FIELDPATH-SINGULAR", "DECODE-THEN-PARAMS", "DESC-ROLE", "DECOMP-AGREE"},
+		Decides:     "Decides that the per-kind conversion table is complete and type-correct against protoreflect's Kind/Value contract, that well-known types are listed and unmarshalled into their own type, that the bytes arm reaches all four base64 variants, that names resolve by JSON name then proto name, that field paths only walk singular message fields, that body/query/path resolution uses the request descriptor, that decompression and codec selection follow the request headers, and that parameters are applied after the body.",
+		NotDecided:  "that converted values equal the proto3 JSON reading (null, NaN, whitespace, base64 details), the round-trip law itself, codec behaviour.",
 		Assumptions: commonAssumptions,
 	})
 	property(&Property{
-		ID:    "C04",
-		Rules: []string{"DESC-ROLE", "FIELDPATH-SINGULAR", "RESP-APPLIED", "CT-AGREE", "CE-AGREE", "OFFERS-AGREE", "MD-RESERVED-TABLE"},
-		Decides: "Decides that the header naming the body's type/encoding and the codec/compressor that produced the body are chosen by the same value on every path, that response_body is resolved with its own selector against the reply type and applied on send, that offers come from the very codec map that is indexed, and that handler metadata cannot override Content-Type/Content-Encoding.",
-		NotDecided: "negotiation results for concrete Accept strings; marshalled bytes; whether compression is ever offered.",
+		ID:          "C04",
+		Rules:       []string{"DESC-ROLE", "FIELDPATH-SINGULAR", "RESP-APPLIED", "CT-AGREE", "CE-AGREE", "OFFERS-AGREE", "MD-RESERVED-TABLE", "POOL-FOREIGN"},
+		Decides:     "Decides that the header naming the body's type/encoding and the codec/compressor that produced the body are chosen by the same value on every path, that response_body is resolved with its own selector against the reply type and applied on send, that offers come from the very codec map that is indexed, and that handler metadata cannot override Content-Type/Content-Encoding.",
+		NotDecided:  "negotiation results for concrete Accept strings; marshalled bytes; whether compression is ever offered.",
 		Assumptions: commonAssumptions,
 	})
 	property(&Property{
-		ID:    "C05",
-		Rules: []string{"STATUS-TABLE", "TABLE-GUARD", "TWIRP-TABLE", "ENCODER-CLOSE", "TAIL-FLUSH", "PANIC-REACH-SERVE", "ERR-SAME-STATUS", "GRPC-TRAILER-VALUES", "ESCAPE-SET", "CODEC-LOOKUP-TOTAL"},
-		Decides: "Decides the table-shaped and pairing-shaped parts of status fidelity: status tables equal the documented mapping and their guards are exact; the Twirp name table equals the Twirp spec; the base64 stream of gRPC-web-text is terminated; the grpc-message encoder writes its tail; the error encoders contain no reachable panic; code, message and details come from one status value derived from the handler's error and reach the gRPC trailers through the right encoders.",
-		NotDecided: "encodeGrpcMessage's per-character output beyond 'no input byte is skipped', WebSocket close-frame payload limits, equality of details.",
+		ID:          "C05",
+		Rules:       []string{"STATUS-TABLE", "TABLE-GUARD", "TWIRP-TABLE", "ENCODER-CLOSE", "TAIL-FLUSH", "PANIC-REACH-SERVE", "ERR-SAME-STATUS", "GRPC-TRAILER-VALUES", "ESCAPE-SET", "CODEC-LOOKUP-TOTAL"},
+		Decides:     "Decides the table-shaped and pairing-shaped parts of status fidelity: status tables equal the documented mapping and their guards are exact; the Twirp name table equals the Twirp spec; the base64 stream of gRPC-web-text is terminated; the grpc-message encoder writes its tail; the error encoders contain no reachable panic; code, message and details come from one status value derived from the handler's error and reach the gRPC trailers through the right encoders.",
+		NotDecided:  "encodeGrpcMessage's per-character output beyond 'no input byte is skipped', WebSocket close-frame payload limits, equality of details.",
 		Assumptions: commonAssumptions,
 	})
 	property(&Property{
-		ID:    "C06",
-		Rules: []string{"ENCODER-CLOSE", "CARRY-OVER", "FRAME-AGREE", "READFULL-EOF"},
-		Decides: "Decides only three structural necessary conditions of 'no lost byte': the gRPC-web-text byte stream is terminated; bytes a stream codec read past the current message are saved on every path and handed to the next read; the gRPC frame writer and reader (and the gRPC-web trailer frame) agree on header length, offsets and byte order.",
-		NotDecided: "and this is most of the property: sequence equality, fragmentation invariance, truncation behaviour, phantom/dropped messages at EOF, WebSocket end-of-stream.",
+		ID:          "C06",
+		Rules:       []string{"ENCODER-CLOSE", "CARRY-OVER", "FRAME-AGREE", "READFULL-EOF"},
+		Decides:     "Decides only three structural necessary conditions of 'no lost byte': the gRPC-web-text byte stream is terminated; bytes a stream codec read past the current message are saved on every path and handed to the next read; the gRPC frame writer and reader (and the gRPC-web trailer frame) agree on header length, offsets and byte order.",
+		NotDecided:  "and this is most of the property: sequence equality, fragmentation invariance, truncation behaviour, phantom/dropped messages at EOF, WebSocket end-of-stream.",
 		Assumptions: commonAssumptions,
 	})
 	property(&Property{
-		ID:    "C07",
-		Rules: []string{"PARAM-ORDER", "LAST-WRITER", "DECODE-THEN-PARAMS"},
-		Decides: "Decides the precedence between the three input channels for singular fields, which is entirely structural: params.set is last-writer-wins, so the property holds iff path captures are applied after query parameters and after the body; every stream receives the composed list.",
-		NotDecided: "repeated path-bound fields (both channels append); protoreflect's Set itself.",
+		ID:          "C07",
+		Rules:       []string{"PARAM-ORDER", "LAST-WRITER", "DECODE-THEN-PARAMS"},
+		Decides:     "Decides the precedence between the three input channels for singular fields, which is entirely structural: params.set is last-writer-wins, so the property holds iff path captures are applied after query parameters and after the body; every stream receives the composed list.",
+		NotDecided:  "repeated path-bound fields (both channels append); protoreflect's Set itself.",
 		Assumptions: commonAssumptions,
 	})
 	property(&Property{
-		ID:    "C08",
-		Rules: []string{"LIMIT-SRC", "LIMIT-STRICT", "LIMIT-IMPL", "LIMIT-DEFAULTS", "SIGNCONV", "OPTS-RO"},
-		Decides: "Decides that every way request bytes enter memory on a request-reachable path is bounded by the configured receive limit before use on every protocol (including after decompression and on WebSocket), that refusing comparisons are strict (a message exactly at the limit is accepted), that every in-repo stream codec honours its limit, that wire lengths cannot wrap through a sign-changing conversion, and that the limit in force is the configured one.",
-		NotDecided: "numeric boundary behaviour of library readers, memory use, user-supplied StreamCodecs.",
+		ID:          "C08",
+		Rules:       []string{"LIMIT-SRC", "LIMIT-STRICT", "LIMIT-IMPL", "LIMIT-DEFAULTS", "SIGNCONV", "OPTS-RO"},
+		Decides:     "Decides that every way request bytes enter memory on a request-reachable path is bounded by the configured receive limit before use on every protocol (including after decompression and on WebSocket), that refusing comparisons are strict (a message exactly at the limit is accepted), that every in-repo stream codec honours its limit, that wire lengths cannot wrap through a sign-changing conversion, and that the limit in force is the configured one.",
+		NotDecided:  "numeric boundary behaviour of library readers, memory use, user-supplied StreamCodecs.",
 		Assumptions: commonAssumptions,
 	})
 	property(&Property{
-		ID:    "C09",
-		Rules: []string{"PANIC-REACH-SERVE", "COMMAOK-SERVE", "ASSERT-CHECKED", "TABLE-GUARD", "SIGNCONV", "OFFSET-BASE", "FIELDPATH-SINGULAR", "TOKEN-KINDS", "NIL-MAP-WRITE", "STATS-PURE", "SLICE-CAP", "NILABLE-FIELD", "FD-LOCAL", "CODEC-LOOKUP-TOTAL"},
-		Decides: "Decides the absence, on every call-graph path from the request entry points, of the enumerated crash constructs: explicit panic, use of a comma-ok result where ok may be false, unjustified single-result type assertions, off-by-one table guards, sign-changing conversions of wire lengths, index-relative-to-wrong-base arithmetic, field paths walking through repeated/map/scalar fields, pattern tokens the matcher panics on, writes through nil maps, stats-only slicing.",
-		NotDecided: "general slice/index arithmetic, nil dereferences beyond the comma-ok class, termination, resource exhaustion, panics inside dependencies beyond the encoded contracts.",
+		ID:          "C09",
+		Rules:       []string{"PANIC-REACH-SERVE", "COMMAOK-SERVE", "ASSERT-CHECKED", "TABLE-GUARD", "SIGNCONV", "OFFSET-BASE", "FIELDPATH-SINGULAR", "TOKEN-KINDS", "NIL-MAP-WRITE", "STATS-PURE", "SLICE-CAP", "NILABLE-FIELD", "FD-LOCAL", "CODEC-LOOKUP-TOTAL"},
+		Decides:     "Decides the absence, on every call-graph path from the request entry points, of the enumerated crash constructs: explicit panic, use of a comma-ok result where ok may be false, unjustified single-result type assertions, off-by-one table guards, sign-changing conversions of wire lengths, index-relative-to-wrong-base arithmetic, field paths walking through repeated/map/scalar fields, pattern tokens the matcher panics on, writes through nil maps, stats-only slicing.",
+		NotDecided:  "general slice/index arithmetic, nil dereferences beyond the comma-ok class, termination, resource exhaustion, panics inside dependencies beyond the encoded contracts.",
 		Assumptions: commonAssumptions,
 	})
 	property(&Property{
-		ID:    "C10",
-		Rules: []string{"FWD-MD", "FWD-CLOSESEND", "FWD-PAIR", "FWD-ERR-IDENTITY", "FWD-ERR-PROMPT", "DESC-ROLE", "ROLE-AGREE", "GO-SHARED", "IC-ONCE"},
-		Decides: "Decides the forwarder's plumbing: the backend call carries the inbound metadata, method name and streaming shape; client half-close is forwarded; each inbound message is forwarded as received into a fresh message of the request type and replies are built from the reply type; backend errors are returned unmodified; the pump goroutine shares nothing unsynchronised and never touches the response side.",
-		NotDecided: "observational equivalence of transcripts; reflection-based descriptor discovery; response header metadata.",
+		ID:          "C10",
+		Rules:       []string{"FWD-MD", "FWD-CLOSESEND", "FWD-PAIR", "FWD-ERR-IDENTITY", "FWD-ERR-PROMPT", "DESC-ROLE", "ROLE-AGREE", "GO-SHARED", "IC-ONCE"},
+		Decides:     "Decides the forwarder's plumbing: the backend call carries the inbound metadata, method name and streaming shape; client half-close is forwarded; each inbound message is forwarded as received into a fresh message of the request type and replies are built from the reply type; backend errors are returned unmodified; the pump goroutine shares nothing unsynchronised and never touches the response side.",
+		NotDecided:  "observational equivalence of transcripts; reflection-based descriptor discovery; response header metadata.",
 		Assumptions: commonAssumptions,
 	})
 	property(&Property{
-		ID:    "C11",
-		Rules: []string{"WRITER-PUBLISHES", "ADD-REMOVE-SYMMETRY", "REMOVE-FILTER", "PICK-CURRENT", "COW-6", "STORED-SLICE-REUSE", "FD-LOCAL"},
-		Decides: "Decides that every operation that changes the registration set publishes it, that removal empties what registration fills and keeps exactly the handlers of other connections, that dropping an unknown connection changes nothing, and that dispatch reads one current snapshot and answers Unimplemented exactly when no handler is left.",
-		NotDecided: "behaviour over histories (stale routes answering Unimplemented, which backend answers).",
+		ID:          "C11",
+		Rules:       []string{"WRITER-PUBLISHES", "ADD-REMOVE-SYMMETRY", "REMOVE-FILTER", "PICK-CURRENT", "COW-6", "STORED-SLICE-REUSE", "FD-LOCAL", "DELRULE-GUARD"},
+		Decides:     "Decides that every operation that changes the registration set publishes it, that removal empties what registration fills and keeps exactly the handlers of other connections, that dropping an unknown connection changes nothing, and that dispatch reads one current snapshot and answers Unimplemented exactly when no handler is left.",
+		NotDecided:  "behaviour over histories (stale routes answering Unimplemented, which backend answers).",
 		Assumptions: commonAssumptions,
 	})
 	property(&Property{
-		ID:    "C12",
-		Rules: []string{"COW-1", "COW-2", "COW-3", "COW-4", "COW-5", "COW-6", "COW-7", "OPTS-RO", "NO-UNSAFE"},
-		Decides: "Decides the copy-on-write discipline completely: published snapshots are never written (readers are effect-free, clones share nothing that is mutated in place), writers are serialised by Mux.mu, publication is one atomic store of a private clone of the current snapshot, each request resolves against one snapshot, failures publish nothing. Under Go's memory model this implies no torn or in-progress routing state is observable and no data race on routing state exists, for every interleaving.",
-		NotDecided: "liveness ('requests keep succeeding'), races outside routing state (C13).",
+		ID:          "C12",
+		Rules:       []string{"COW-1", "COW-2", "COW-3", "COW-4", "COW-5", "COW-6", "COW-7", "OPTS-RO", "NO-UNSAFE"},
+		Decides:     "Decides the copy-on-write discipline completely: published snapshots are never written (readers are effect-free, clones share nothing that is mutated in place), writers are serialised by Mux.mu, publication is one atomic store of a private clone of the current snapshot, each request resolves against one snapshot, failures publish nothing. Under Go's memory model this implies no torn or in-progress routing state is observable and no data race on routing state exists, for every interleaving.",
+		NotDecided:  "liveness ('requests keep succeeding'), races outside routing state (C13).",
 		Assumptions: commonAssumptions,
 	})
 	property(&Property{
-		ID:    "C13",
-		Rules: []string{"POOL-TYPE", "POOL-RESET", "POOL-ESCAPE", "POOL-UAP", "POOL-ONCE", "OPTS-RO", "GO-SHARED", "SENDRECV-DISJOINT", "PER-REQUEST-FRESH"},
-		Decides: "Decides the ownership discipline of everything shared between requests: pooled objects are typed, reset before use, never escape into messages/fields/goroutines, are not used after being returned and are returned at most once; options are read-only on serving paths; what a spawned pump shares is read only after its join and it never touches the response side; the send and receive halves of a stream touch disjoint state; stream objects and lexers are per-request allocations.",
-		NotDecided: "absence of races in general (no lockset analysis of stream fields across handler-spawned goroutines), byte-level isolation, user codecs that alias their input.",
+		ID:          "C13",
+		Rules:       []string{"POOL-TYPE", "POOL-RESET", "POOL-ESCAPE", "POOL-UAP", "POOL-ONCE", "OPTS-RO", "GO-SHARED", "SENDRECV-DISJOINT", "PER-REQUEST-FRESH", "POOL-FOREIGN", "CLOSE-ONCE"},
+		Decides:     "Decides the ownership discipline of everything shared between requests: pooled objects are typed, reset before use, never escape into messages/fields/goroutines, are not used after being returned and are returned at most once; options are read-only on serving paths; what a spawned pump shares is read only after its join and it never touches the response side; the send and receive halves of a stream touch disjoint state; stream objects and lexers are per-request allocations.",
+		NotDecided:  "absence of races in general (no lockset analysis of stream fields across handler-spawned goroutines), byte-level isolation, user codecs that alias their input.",
 		Assumptions: commonAssumptions,
 	})
 	property(&Property{
-		ID:    "C14",
-		Rules: []string{"MD-GATE-OUT", "MD-GATE-IN", "MD-RESERVED-TABLE", "BIN-PADDING", "IDENT-BRANCH", "TRAILER-PHASE", "STS-ROUTING", "WEB-TRAILER-FRAME"},
-		Decides: "Decides that every conversion between headers and metadata, in either direction, filters reserved keys and transforms '-bin' values, lower-cases keys and keeps all values; that the reserved set covers every key the transport itself writes on a response; that both base64 padding variants are accepted; that trailer-phase header writes can reach the wire; and that the ServerTransportStream wrapper routes header/trailer calls to the stream.",
-		NotDecided: "byte-exactness for arbitrary values, HTTP/2 header canonicalisation, WebSocket metadata.",
+		ID:          "C14",
+		Rules:       []string{"MD-GATE-OUT", "MD-GATE-IN", "MD-RESERVED-TABLE", "BIN-PADDING", "IDENT-BRANCH", "TRAILER-PHASE", "STS-ROUTING", "WEB-TRAILER-FRAME"},
+		Decides:     "Decides that every conversion between headers and metadata, in either direction, filters reserved keys and transforms '-bin' values, lower-cases keys and keeps all values; that the reserved set covers every key the transport itself writes on a response; that both base64 padding variants are accepted; that trailer-phase header writes can reach the wire; and that the ServerTransportStream wrapper routes header/trailer calls to the stream.",
+		NotDecided:  "byte-exactness for arbitrary values, HTTP/2 header canonicalisation, WebSocket metadata.",
 		Assumptions: commonAssumptions,
 	})
 	property(&Property{
-		ID:    "C15",
-		Rules: []string{"CTX-ANCESTRY", "TIMEOUT-APPLIED", "TIMEOUT-REFUSED", "UNIT-TABLE", "TIMEOUT-DIGITS"},
-		Decides: "Decides that the handler's context always descends from the request's context through context-deriving calls only, that a present grpc-timeout is decoded with the spec's unit table and length bounds and installed with context.WithTimeout, and that a malformed one is refused before the handler can run.",
-		NotDecided: "promptness; that a handler blocked inside r.Body.Read is released (net/http behaviour); sign/overflow handling of the digits.",
+		ID:          "C15",
+		Rules:       []string{"CTX-ANCESTRY", "TIMEOUT-APPLIED", "TIMEOUT-REFUSED", "UNIT-TABLE", "TIMEOUT-DIGITS", "TIMEOUT-CLAMP"},
+		Decides:     "Decides that the handler's context always descends from the request's context through context-deriving calls only, that a present grpc-timeout is decoded with the spec's unit table and length bounds and installed with context.WithTimeout, and that a malformed one is refused before the handler can run.",
+		NotDecided:  "promptness; that a handler blocked inside r.Body.Read is released (net/http behaviour); sign/overflow handling of the digits.",
 		Assumptions: commonAssumptions,
 	})
 	property(&Property{
-		ID:    "C16",
-		Rules: []string{"PANIC-REACH-REG", "COMMAOK-REG", "TOKEN-KINDS", "COW-7", "COW-3", "COW-5", "SLOT-CHECK", "FIELDPATH-SINGULAR", "ADDITIONAL-BINDINGS"},
-		Decides: "Decides the 'rejects ... with an error (never a panic) and leaves previously registered routes intact' half: no panic or unchecked comma-ok use is reachable from the registration roots, pattern tokens are validated, a failed registration publishes nothing and works on a private clone, a binding slot is written only after the conflict check, body/response_body selectors must name singular message fields, nested additional bindings are rejected before recursion.",
-		NotDecided: "the 'accepts every well-formed template' half (grammar conformance is value-level: e.g. one-letter literals are rejected today).",
+		ID:          "C16",
+		Rules:       []string{"PANIC-REACH-REG", "COMMAOK-REG", "TOKEN-KINDS", "COW-7", "COW-3", "COW-5", "SLOT-CHECK", "FIELDPATH-SINGULAR", "ADDITIONAL-BINDINGS"},
+		Decides:     "Decides the 'rejects ... with an error (never a panic) and leaves previously registered routes intact' half: no panic or unchecked comma-ok use is reachable from the registration roots, pattern tokens are validated, a failed registration publishes nothing and works on a private clone, a binding slot is written only after the conflict check, body/response_body selectors must name singular message fields, nested additional bindings are rejected before recursion.",
+		NotDecided:  "the 'accepts every well-formed template' half (grammar conformance is value-level: e.g. one-letter literals are rejected today).",
 		Assumptions: commonAssumptions,
 	})
 	property(&Property{
-		ID:    "C17",
-		Rules: []string{"LIMIT-IMPL", "LIMIT-STRICT", "SIGNCONV", "COMMAOK-SERVE", "READFULL-EOF", "SLICE-CAP"},
-		Decides: "Decides the limit-safe half: every in-repo ReadNext compares against its limit before it can return a message, strictly, and in a domain where the decoded length cannot wrap.",
-		NotDecided: "fragmentation invariance and carry-over exactness - the other half of the property (value-level).",
+		ID:          "C17",
+		Rules:       []string{"LIMIT-IMPL", "LIMIT-STRICT", "SIGNCONV", "COMMAOK-SERVE", "READFULL-EOF", "SLICE-CAP"},
+		Decides:     "Decides the limit-safe half: every in-repo ReadNext compares against its limit before it can return a message, strictly, and in a domain where the decoded length cannot wrap.",
+		NotDecided:  "fragmentation invariance and carry-over exactness - the other half of the property (value-level).",
 		Assumptions: commonAssumptions,
 	})
 	property(&Property{
-		ID:    "C18",
-		Rules: []string{"STATS-PAIR", "STATS-ERR", "STATS-ORDER", "STATS-PURE", "NILABLE-FIELD", "IC-ONCE", "IC-PASSTHRU", "ROLE-AGREE"},
-		Decides: "Decides the exactly-once and pairing structure: each handler closure invokes the RPC through the configured interceptor exactly once and never directly; the nil-safe wrappers pass arguments and results through unchanged; streaming flags and method names agree with the descriptor; every Begin has exactly one End carrying the handler's error; events are ordered and share TagRPC's context; stats-only code cannot change or crash the RPC.",
-		NotDecided: "one payload event per message (WebSocket and body-less requests emit none), event field values, user-supplied interceptors.",
+		ID:          "C18",
+		Rules:       []string{"STATS-PAIR", "STATS-ERR", "STATS-ORDER", "STATS-PURE", "NILABLE-FIELD", "IC-ONCE", "IC-PASSTHRU", "ROLE-AGREE", "STATS-PAYLOAD-EACH"},
+		Decides:     "Decides the exactly-once and pairing structure: each handler closure invokes the RPC through the configured interceptor exactly once and never directly; the nil-safe wrappers pass arguments and results through unchanged; streaming flags and method names agree with the descriptor; every Begin has exactly one End carrying the handler's error; events are ordered and share TagRPC's context; stats-only code cannot change or crash the RPC.",
+		NotDecided:  "one payload event per message (WebSocket and body-less requests emit none), event field values, user-supplied interceptors.",
 		Assumptions: commonAssumptions,
 	})
 	property(&Property{
-		ID:    "C19",
-		Rules: []string{"SEL-KEY", "SEL-SAME-BINDER", "SEL-BUILD", "SEL-COLLECT", "HEALTH-TABLE"},
-		Decides: "Decides how selected rules are bound and the healthz table: rules are looked up by the method's full name, bound by the same addRule call as annotations, built from the service config's http rules; the healthz selectors name methods of the health service with the streaming shape their verb needs, at /v1/healthz, merged into the caller's config.",
-		NotDecided: "the iff: getRules/setRules are a string algorithm (an exact selector currently also matches longer names - value-level); health status reporting (upstream code).",
+		ID:          "C19",
+		Rules:       []string{"SEL-KEY", "SEL-SAME-BINDER", "SEL-BUILD", "SEL-COLLECT", "HEALTH-TABLE", "SEL-INSERT"},
+		Decides:     "Decides how selected rules are bound and the healthz table: rules are looked up by the method's full name, bound by the same addRule call as annotations, built from the service config's http rules; the healthz selectors name methods of the health service with the streaming shape their verb needs, at /v1/healthz, merged into the caller's config.",
+		NotDecided:  "the iff: getRules/setRules are a string algorithm (an exact selector currently also matches longer names - value-level); health status reporting (upstream code).",
 		Assumptions: commonAssumptions,
 	})
 	property(&Property{
-		ID:    "C20",
-		Rules: []string{"PREFIX-AGREE", "MUX-REUSE", "DEFAULT-ROOT", "H2-WIRED"},
-		Decides: "Decides the wiring in NewServer: each mount pattern P+\"/\" is served by StripPrefix(P, mux) with the same P (or \"/\" by the bare mux); the ServeMux handed to the HTTP/2 handler is the one that received HTTPHandlerOption's registrations; no patterns means \"/\"; http2.ConfigureServer and h2c.NewHandler share one http2.Server.",
-		NotDecided: "net/http.ServeMux's own matching/cleaning/redirect behaviour and therefore response equality.",
+		ID:          "C20",
+		Rules:       []string{"PREFIX-AGREE", "MUX-REUSE", "DEFAULT-ROOT", "H2-WIRED", "PATH-SOURCE"},
+		Decides:     "Decides the wiring in NewServer: each mount pattern P+\"/\" is served by StripPrefix(P, mux) with the same P (or \"/\" by the bare mux); the ServeMux handed to the HTTP/2 handler is the one that received HTTPHandlerOption's registrations; no patterns means \"/\"; http2.ConfigureServer and h2c.NewHandler share one http2.Server.",
+		NotDecided:  "net/http.ServeMux's own matching/cleaning/redirect behaviour and therefore response equality.",
 		Assumptions: commonAssumptions,
 	})
 }
